@@ -39,7 +39,8 @@ def gen_struct(rng, depth=0, kinds=("obs", "obs", "list", "array", "corr", "corr
         s["n"] = rng.randint(2, 4)      # a one-element list cell / structure comes back as a bare Obs (documented unpacking)
         s["tags"] = [rng.randrange(len(TAGS)) if rng.random() < 0.4 else 0 for _ in range(s["n"])]
     elif k == "array":
-        s["shape"] = rng.choice([[1], [3], [2, 2], [1, 3], [2, 1, 2], [2, 3]])
+        s["shape"] = rng.choice([[1], [3], [2, 2], [1, 3], [2, 1, 2], [2, 3], [3, 2]])
+        s["order"] = rng.choice(["C", "C", "F", "T", "swap"])      # memory layout of the ndarray handed to the exporter
         n = int(np.prod(s["shape"]))
         s["tags"] = [rng.randrange(len(TAGS)) if rng.random() < 0.3 else 0 for _ in range(n)]
     else:
@@ -113,7 +114,15 @@ def build(s):
         a = np.empty(n, dtype=object)
         for i in range(n):
             a[i] = member(s["layout"], s["seed"] + i, s["tags"][i])
-        return a.reshape(s["shape"])
+        a = a.reshape(s["shape"])
+        order = s.get("order", "C")
+        if order == "F":
+            a = np.asfortranarray(a)
+        elif order == "T" and a.ndim >= 2:
+            a = np.ascontiguousarray(a.T).T            # a transposed view: same logical array, non-contiguous memory
+        elif order == "swap" and a.ndim >= 2:
+            a = np.ascontiguousarray(np.swapaxes(a, 0, -1)).swapaxes(0, -1)
+        return a
     T, N = s["T"], s["N"]
     content = []
     k = 0
